@@ -47,7 +47,7 @@ def o6_2_apply_batch(mir, tier):
                                       (vlen == want_len) if vlen is not None else BoolVal(False))))
                 res.cases['apply %d ops %s' % (n, ''.join('P' if x else 'D' for x in kinds))] = 1
                 for label, post, m in ex.check_posts(posts, pc):
-                    res.violations.append({'label': label, 'ops': n, 'replay': ['db_scenario', 'B6b31=01+6b32=02+6b33=03', 'G6b31', 'G6b32', 'G6b33', 'P6b32=09', 'G6b32', 'I']})
+                    res.violations.append({'label': label, 'ops': n, 'replay': ['db_scenario', 'B6b31=01+6b32=02+6b31=03+6b33=04+6b32=05', 'G6b31', 'G6b32', 'G6b33', 'P6b32=09', 'G6b32', 'I', 'F', 'G6b31', 'G6b32']})
             batch = mir.mk_struct('Batch', starting_seq_number=Enum('Some', (s0,)), operations=list(ops))
             ex.top(fn, [{'abstract': True, '__ty': 'MemTable'}, Ref('$b')], {'$state': {'inserts': []}, '$b': batch}, [ULT(s0, bv(1 << 56))], k)
             res.absorb(ex)
